@@ -61,8 +61,9 @@ pub fn start(property: &'static str, signature: &'static str, cap_s: f64) {
 pub fn start_global(property: String, cap_s: f64) {
     let _ = crate::util::now_ms();
     std::thread::spawn(move || loop {
-        std::thread::sleep(std::time::Duration::from_millis(1000));
+        std::thread::sleep(std::time::Duration::from_millis(200));
         let now = crate::util::now_ms();
+        crate::util::COARSE_MS.store(now, std::sync::atomic::Ordering::Relaxed);
         for b in crate::util::BUSY.iter() {
             let t = b.load(std::sync::atomic::Ordering::Relaxed);
             if t != 0 && now + 1 > t && (now + 1 - t) as f64 / 1000.0 > cap_s {
